@@ -48,7 +48,7 @@ SPECTRA = {
 def bounds(tier):
     return {"n": ("1..8" if tier == "quick" else "1..12") + " (n>6: <=4 distinct eigenvalues, commuting preconditioners)", "spectra": list(SPECTRA),
             "U": ["I", "householder", "dft"], "b": ["e1", "ones", "Uones", "complex"], "x0": ["zero", "(1+i)ones"],
-            "P": ["none", "jacobi", "commuting", "hpd"], "A as": ["MatMul", "function"], "max_iter": ["1", "2", "n", "n+2"],
+            "P": ["none", "jacobi", "commuting", "hpd"], "A as": ["MatMul", "function"], "max_iter": ["0", "1", "2", "n", "n+2"],
             "tol": [0, 1e-3], "breakdown": ["indefinite", "negative-definite", "singular PSD"],
             "composite A": ["M.H*M + I/4", "M.N + I/4"], "derived operators": ["none", "A+mu I, A-A, Add([A,A]) built before the solve", "... after the first update"],
             "layouts": ["contiguous", "strided x"], "scales": "5 (A, b) scalings 1e-15..1e12"}
@@ -73,9 +73,11 @@ def gen_cases(tier, seed):
                             if not T and n > 4 and (bname in ("e1",) or (x0 == "ones" and U == "I")):
                                 continue
                             for asfn in (False, True):
-                                for mi in ("1", "2", "n", "n+2"):
+                                for mi in ("0", "1", "2", "n", "n+2"):
                                     if asfn and mi in ("1", "2") and not T:
                                         continue
+                                    if mi == "0" and (n > 3 or bname != "complex"):
+                                        continue   # zero updates requested: the caller's x must come back untouched
                                     for tol in (0, 1e-3):
                                         if tol and (mi != "n+2" or asfn):
                                             continue
@@ -177,7 +179,7 @@ def run_case(case, seed):
     def V(oracle, detail):
         viol.append(dict(oracle=oracle, key=dict(site="alg.ConjugateGradient", when=when), detail=detail + " | " + str(case)))
 
-    max_iter = {"1": 1, "2": 2, "n": n, "n+2": n + 2}[case["max_iter"]]
+    max_iter = {"0": 0, "1": 1, "2": 2, "n": n, "n+2": n + 2}[case["max_iter"]]
     strided = case.get("xlayout") == "strided"
     if case["asfn"]:
         Aop = lambda x: A @ x  # noqa
@@ -226,7 +228,12 @@ def run_case(case, seed):
     states = 1
     k = 0
     stopped_by_tol = False
-    while k < max_iter:
+    while k < max_iter + 2:
+        if k >= max_iter:
+            # the documented driver loop (`while not alg.done(): alg.update()`) must stop here
+            if not alg.done():
+                V("max-iter", "done() is still False after max_iter = %d updates" % max_iter)
+            break
         if alg.done():
             # "Once done, the object should not be run again" (Alg docstring): the prefixes of interest are those of the
             # documented driver loop; with tol = 0 this only happens once the tracked residual is exactly zero
@@ -272,6 +279,8 @@ def run_case(case, seed):
         res = float(np.sqrt(max(0.0, np.real(np.vdot(r, z)))))
         if not res <= case["tol"] * (1 + 1e-6) + 1e-12:
             V("tolerance-stop", "done() by tolerance but sqrt(r^H P r) = %.3g > tol" % res)
+    if max_iter == 0 and not viol and not np.array_equal(np.asarray(xc).ravel(), x0):
+        V("in-place", "max_iter = 0 but the caller's x was changed")
     if bb.tobytes() != b0.tobytes():
         V("input-mutated", "right-hand side b was modified")
     if A.tobytes() != A0.tobytes():
